@@ -679,9 +679,9 @@ def shape_cases(tier):
     return cases
 
 
-def shape_program(cases):
+def shape_program(cases, main=None):
     """one program holding the given cases: prelude, the helpers they need (once), the cases, a main that runs each
-    case after printing its marker"""
+    case after printing its marker (or the given main body)"""
     helpers, prods = [], []
     seen = set()
     for c in cases:
@@ -706,9 +706,34 @@ def shape_program(cases):
         if h not in uniq:
             uniq.add(h)
             hs.append(h)
-    main = "".join('    (println "@@%s")\n    (println (%s %d))\n' % (c["name"], c["name"], c["seed"]) for c in cases)
+    if main is None:
+        main = "".join('    (println "@@%s")\n    (println (%s %d))\n' % (c["name"], c["name"], c["seed"]) for c in cases)
     return (PRE2 + T_EXTRA + "".join(hs) + "".join(prods) + "".join(c["text"] for c in cases) +
             "fn main() -> int {\n%s    return 0\n}\n" % main)
+
+
+def leak_program(cases, K):
+    """every case as the body of a loop of its own: K calls with K different seeds; whatever a call built is dead when
+    it returns, so the number of live objects after the loop does not depend on K"""
+    # seeds of different cases are disjoint (odd thousands; layer T doubles some seeds): a string leaked by one case is
+    # never found again through the intern table by another, which would hide the second leak
+    drv = "".join("fn drv_%s(k: int) -> int {\n    let mut c: int = 0\n    for i in (range 0 k) { set c (+ c (%s (+ %d i))) }\n    return c\n}\n"
+                  % (c["name"], c["name"], 1000 * (2 * j + 1)) for j, c in enumerate(cases))
+    main = "    let mut c: int = 0\n" + "".join("    set c (+ c (drv_%s %d))\n" % (c["name"], K) for c in cases) + "    (println c)\n"
+    return shape_program(cases, main).replace("fn main() -> int {", drv + "fn main() -> int {")
+
+
+def leak_cause(c, leaking):
+    """cause class of a leaking case: the producer when the same case with the derived value replaced by a plain alias
+    leaks as well, else the derived operation; the access form for layer T"""
+    d = c["dims"]
+    if d[0] == "T":
+        if d[1].startswith("elem") and ("P", d[1].split(":")[1], d[2], "alias", "both", 3) in leaking:
+            return "producer:" + d[1].split(":")[1]
+        return "access:" + d[1]
+    if d[3] == "alias" or ("P", d[1], d[2], "alias", d[4], d[5]) in leaking:
+        return "producer:" + d[1]
+    return "derived:" + d[3]
 
 
 def shape_expected(cases):
@@ -1031,6 +1056,92 @@ def run(tier):
             rep.violation(key, {"program_K64.nano": churn_program(sq, 64), "program_K512.nano": churn_program(sq, 512)},
                           "live objects grow with the iteration count although every value dies each iteration: loop body %s: peak live objects %d after 64 iterations, %d after 512" % (culprit, p64, p512),
                           "# heap_probe live 50000000 <module compiled from program_K64.nano / program_K512.nano>; compare peak_live")
+    # ---- leak family: every value-shape case as a loop body (all its values die when the call returns)
+    LK = (16, 128)
+    LB = 40
+    ljobs, lbatches = [], []
+    for bi in range(0, len(vcases), LB):
+        for K in LK:
+            p = os.path.join(work, "k%05d_%d.nano" % (bi, K))
+            with open(p, "w") as f:
+                f.write(leak_program(vcases[bi:bi + LB], K))
+            ljobs.append((p, p[:-5] + ".nvm"))
+        lbatches.append((bi, vcases[bi:bi + LB]))
+    for src, out, rc, msg in common.pmap(_compile, ljobs, chunksize=2):
+        if rc != 0:
+            raise common.HarnessError("leak-family program does not compile (%s): %s" % (src, msg))
+    lruns = []
+    for K in LK:
+        fs = [os.path.join(work, "k%05d_%d.nvm" % (bi, K)) for bi, _c in lbatches]
+        lruns += [("live:1", 400000000, fs[i:i + 4]) for i in range(0, len(fs), 4)]
+    samples = {}
+    lsteps = 0
+    for files, rc, out, err in common.pimap(_probe, lruns):
+        res, _f, crashes = parse(out)
+        for l in out.splitlines():
+            if l.startswith("LIVE "):
+                w = l.split()
+                samples[w[1]] = [int(x) for x in w[3].split(",")] if len(w) > 3 else []
+        for f in files:
+            if f in crashes or f not in res or res[f]["rc"] != 0 or res[f]["fuel_out"]:
+                r1 = _probe(("live", 400000000, [f]))
+                rep.violation("leak-crash:" + asan_summary(r1[3]), {"program.nano": open(f[:-4] + ".nano").read(), "stderr.txt": r1[3][-20000:], "stdout.txt": r1[2][-2000:]},
+                              "leak-family program aborted or failed: %s" % (crashes.get(f) or res.get(f)))
+                samples.pop(f, None)
+                continue
+            lsteps += res[f]["steps"]
+    leaking = {}
+    ljudged = 0
+    for bi, cs in lbatches:
+        sm = [samples.get(os.path.join(work, "k%05d_%d.nvm" % (bi, K))) for K in LK]
+        if None in sm:
+            continue
+        if len(sm[0]) != len(cs) or len(sm[1]) != len(cs):
+            raise common.HarnessError("leak family: %d / %d samples for %d cases (batch %d)" % (len(sm[0]), len(sm[1]), len(cs), bi))
+        for j, c in enumerate(cs):
+            d0 = sm[0][j] - (sm[0][j - 1] if j else 0)
+            d1 = sm[1][j] - (sm[1][j - 1] if j else 0)
+            ljudged += 1
+            if d1 > d0:
+                leaking[c["dims"]] = (c, d0, d1)
+    lgroups = {}
+    for dims in sorted(leaking, key=str):
+        c, d0, d1 = leaking[dims]
+        lgroups.setdefault(leak_cause(c, leaking), []).append((c, d0, d1))
+    findings = dict((f["id"], f) for f in common.load_findings("C14"))
+    for cause in sorted(lgroups):
+        lst = lgroups[cause]
+        c0, d0, d1 = lst[0]
+        # the first case alone, as a program of its own
+        fin = []
+        for K in LK:
+            src = os.path.join(work, "leak_alone_%d.nano" % K)
+            with open(src, "w") as f:
+                f.write(leak_program([c0], K))
+            _s, out, rc, msg = _compile((src, src[:-5] + ".nvm"))
+            if rc != 0:
+                raise common.HarnessError("single leak case does not compile: " + msg)
+            r = parse(_probe(("live", 400000000, [out]))[2])[0].get(out)
+            fin.append(r["final"] if r else -1)
+        alone = "alone: %d live objects at exit after %d calls, %d after %d calls" % (fin[0], LK[0], fin[1], LK[1])
+        if not fin[1] > fin[0] >= 0:
+            alone += " (not reproduced alone)"
+        summary = ("objects stay allocated after every value of the call is dead (%s): case '%s' leaves %d objects behind after %d calls, %d after %d; %s; %d case(s) with this cause"
+                   % (cause, c0["desc"], d0, LK[0], d1, LK[1], alone, len(lst)))
+        fid = "vm-elementwise-add-leaks-strings"
+        if fid in findings and cause.split(":")[1] in ("ew_as", "ew_sa", "ew_aa") and fin[1] > fin[0] >= 0:
+            # cause signature of that finding: the leaking operation is the element-wise + of string arrays
+            rep.known_finding(fid, findings[fid]["what"])
+            continue
+        rep.violation("leak:" + cause, {"program_K%d.nano" % LK[0]: leak_program([c0], LK[0]), "program_K%d.nano" % LK[1]: leak_program([c0], LK[1]),
+                                        "leaking_cases.txt": "".join("%s: %d -> %d\n" % (c["desc"], a, b) for c, a, b in lst)},
+                      summary, "# heap_probe live 400000000 <module compiled from program_K%d.nano / program_K%d.nano>; compare final_live" % LK)
+    rep.count("states", len(vcases))
+    rep.count("transitions", lsteps)
+    rep.coverage["leak_loop_bodies"] = ljudged
+    rep.coverage["leak_bodies_growing"] = len(leaking)
+    if ljudged < len(vcases) and not rep.violations:
+        raise common.HarnessError("leak family judged %d of %d cases" % (ljudged, len(vcases)))
     rep.count("states", len(cseqs))
     rep.coverage["churn_loop_bodies"] = len(cseqs)
     rep.coverage["churn_bodies_growing"] = grew
